@@ -501,14 +501,26 @@ def run(tier, seed):
                 elif bool(got[1]) != want:
                     # classify what the implementation did, so that the key names the defect
                     why = "other"
-                    if atol.unit is None and rtol.kind() in ("bare", "dimensionless"):
-                        alt, b2, _ = spec_allclose(a, d, rtol, atol, bare_tol_unit=a.unit_for_bare_tol())
-                        if alt is not None and (b2 or alt == bool(got[1])):
-                            why = "reads-bare-atol-in-actual-unit"
+                    cands = []
+                    # the translator's probe of the live function already says in which unit a bare
+                    # atol is read; only if that is not desired's unit can it explain a deviation
+                    atol_suspect = atol.unit is None and flags.get("bare_atol_in_desired_unit") is not True
+                    if atol_suspect:
+                        cands.append(("reads-bare-atol-in-actual-unit", rtol, a.unit_for_bare_tol()))
                     if rtol.kind() == "scaled-dimensionless":
-                        alt, b2, _ = spec_allclose(a, d, Tol(rtol.val), atol, bare_tol_unit=a.unit_for_bare_tol() if atol.unit is None else None)
-                        if alt is not None and (b2 or alt == bool(got[1])):
-                            why = "reads-rtol-by-bare-value"
+                        cands.append(("reads-rtol-by-bare-value", Tol(rtol.val), None))
+                        if atol_suspect:
+                            cands.append(("reads-rtol-by-bare-value", Tol(rtol.val), a.unit_for_bare_tol()))
+                    alts = [(nm,) + spec_allclose(a, d, rt_, atol, bare_tol_unit=bu_)[:2] for nm, rt_, bu_ in cands]
+                    for nm, alt, b2 in alts:  # a reading that decisively explains the verdict
+                        if alt is not None and not b2 and alt == bool(got[1]):
+                            why = nm
+                            break
+                    else:
+                        for nm, alt, b2 in alts:  # … or one under which the verdict hangs on rounding
+                            if alt is not None and b2:
+                                why = nm
+                                break
                     chk.fail(f"allclose_units|verdict|{why}" if why != "other" else f"allclose_units|verdict|other|rtol={rtol.kind()}|atol={atol.kind()}|{argmode}",
                              f"allclose_units gave {bool(got[1])}, the contract on exact SI magnitudes gives {want} ({note})",
                              {"python": snip(setup + f"v = allclose_units({call_args})\nassert bool(v) == {want}, v\n"), "contract": str(want), "got": str(got[1])})
